@@ -24,7 +24,7 @@ def main() -> None:
     for pt in req["points"]:
         rec = {"args": pt}
         try:
-            ok, witness = h.fn(**pt)
+            ok, witness = h.fn(*[pt[p.name] for p in h.params])
             rec["ok"] = bool(ok)
             rec["witness"] = bool(witness)
         except Exception as err:
